@@ -77,6 +77,9 @@ def run(ctx):
     from .. import spaces as _spaces
 
     _spaces.localised_inherit(ctx)  # singular parts, sparse forms, potentials and FMM point maps are computed on the localised companion space
+    from . import c05 as _c05
+
+    _c05.dispatch(ctx)  # (tools/wiring.py) Helmholtz boundary and potential factories hand a purely imaginary wavenumber to the same modified-Helmholtz kernel with the same omega
 
 
 def far_field(ctx, reg):
